@@ -25,12 +25,22 @@ var headerPool = sync.Pool{
 
 // AcquireHeaderField gets HeaderField from the pool.
 func AcquireHeaderField() *HeaderField {
+	if verifOn {
+		hf := headerPool.Get().(*HeaderField)
+		vPoolGet(vpHeaderField, hf)
+
+		return hf
+	}
+
 	return headerPool.Get().(*HeaderField)
 }
 
 // ReleaseHeaderField puts HeaderField to the pool.
 func ReleaseHeaderField(hf *HeaderField) {
 	hf.Reset()
+	if verifOn {
+		vPoolPut(vpHeaderField, hf)
+	}
 	headerPool.Put(hf)
 }
 
